@@ -4,21 +4,22 @@
 -/
 import Verif.Model.FastCodec
 import Verif.Lemmas.FcKey
+import Verif.Lemmas.SkipBinCor
 namespace Verif
 
-/-- what the FastRead theorems use of `Binary.Skip` (model `skipBin`); discharged by the skip family's
-    theorems (C02 completeness, C03 safety and `n ≤ len`) -/
-structure SkipContract : Prop where
-  sound : ∀ (b : Bytes) (t : UInt8) (n : Nat), skipBin b t = .ok n → n ≤ b.length
-  complete : ∀ (b : Bytes) (t : UInt8) (n : Nat), refLen 64 t b = some n → skipBin b t = .ok n
-  safe : ∀ (b : Bytes) (t : UInt8), (skipBin b t).Safe
+/-! ## what FastRead uses of `Binary.Skip` (proved by the skip family) -/
 
-/-- the extent of a well-formed value does not depend on what follows it (a fact about the grammar) -/
-def RefLenExt : Prop :=
-  ∀ (t : UInt8) (v r : Bytes) (n : Nat), refLen 64 t v = some n → refLen 64 t (v ++ r) = some n
+/-- every well-formed value with nesting ≤ 64 is skipped with exactly its extent -/
+theorem skipBin_complete64 (b : Bytes) (t : UInt8) (n : Nat) (h : refLen 64 t b = some n) :
+    skipBin b t = .ok n := by
+  rw [skipBin_ok_iff, defaultRecursionDepth_eq]
+  exact refLen_le_refBin 64 t b n h
 
-theorem T_STOP_eq : T_STOP = 0 := by decide
-theorem T_STRING_eq : T_STRING = 11 := by decide
+/-- a reported length never exceeds the input -/
+theorem skipBin_le_len (b : Bytes) (t : UInt8) (n : Nat) (h : skipBin b t = .ok n) : n ≤ b.length := by
+  rw [skipBin_ok_iff] at h
+  exact (refBin_good _ t b n h).2
+
 
 theorem sliceFrom_app (P Q : Bytes) (i : Nat) (hi : i = P.length) : sliceFrom (P ++ Q) i = .ok Q := by
   subst hi
@@ -39,10 +40,13 @@ theorem readString_enc (s r : Bytes) (hs : s.length < 2147483648) :
   have hrd : rd32 (encStr s ++ r) = s.length := by
     unfold encStr; rw [List.append_assoc]; exact rd32_be32 _ (by omega) _
   unfold readString
-  rw [if_neg (by simp)]
+  rw [if_neg (by simp; omega)]
   simp only [hrd, toI32_small _ hs]
   rw [if_neg (by omega), if_neg (by simp)]
-  simp [encStr, List.append_assoc, List.take_left']
+  have hd : (encStr s ++ r).drop 4 = s ++ r := by
+    unfold encStr; rw [List.append_assoc]; exact List.drop_left' (be32_length _)
+  simp only [Int.toNat_natCast]
+  rw [hd, List.take_left' rfl]
 
 theorem readI32_enc (v : Int) (r : Bytes) (hv : isI32 v) : readI32 (encI32 v ++ r) = ⟨v, 4, none⟩ := by
   have h32 : ofInt 32 v < 4294967296 := by
@@ -95,6 +99,103 @@ theorem readKVs_enc : ∀ (kvs : List (Bytes × Bytes)) (pre more : Bytes) (m : 
     rw [hl] at ih
     rw [e3, ih]
     simp [encKVs_cons, List.foldl_cons]
+    omega
+
+/-! ## `case` bodies on printed values -/
+
+theorem caseStr_enc {α : Type} (setF : α → Bytes → α) (p : α) (pre more s : Bytes) (off : Nat)
+    (hoff : off = pre.length) (hs : strOK s) :
+    caseStr setF p (pre ++ encStr s ++ more) off = .ok ⟨setF p s, off + (encStr s).length, none⟩ := by
+  simp only [caseStr, Out.bind_eq, Out.pure_eq]
+  rw [List.append_assoc, sliceFrom_app pre _ _ hoff, Out.bind_ok, readString_enc s more hs]
+  simp
+
+theorem caseI32_enc {α : Type} (setF : α → Int → α) (p : α) (pre more : Bytes) (v : Int) (off : Nat)
+    (hoff : off = pre.length) (hv : isI32 v) :
+    caseI32 setF p (pre ++ encI32 v ++ more) off = .ok ⟨setF p v, off + (encI32 v).length, none⟩ := by
+  simp only [caseI32, Out.bind_eq, Out.pure_eq]
+  rw [List.append_assoc, sliceFrom_app pre _ _ hoff, Out.bind_ok, readI32_enc v more hv]
+  simp
+
+theorem encMapSS_length (n : Nat) (kvs : List (Bytes × Bytes)) :
+    (encMapSS n kvs).length = 6 + (encKVs kvs).length := by
+  simp [encMapSS]; omega
+
+theorem caseMap_enc {α : Type} (setF : α → SMap → α) (p : α) (pre more : Bytes) (kvs : List (Bytes × Bytes))
+    (off : Nat) (hoff : off = pre.length) (hk : kvsOK kvs) :
+    caseMap setF p (pre ++ encMapSS kvs.length kvs ++ more) off
+      = .ok ⟨setF p (SMap.ofList kvs), off + (encMapSS kvs.length kvs).length, none⟩ := by
+  subst hoff
+  simp only [caseMap, Out.bind_eq, Out.pure_eq]
+  have e1 : pre ++ encMapSS kvs.length kvs ++ more
+      = pre ++ (TT.STRING :: TT.STRING :: (be32 kvs.length ++ (encKVs kvs ++ more))) := by
+    simp [encMapSS, List.append_assoc]
+  rw [e1, sliceFrom_app pre _ _ rfl, Out.bind_ok, readMapBegin_enc _ _ _ _ hk.1]
+  simp only []
+  have e2 : pre ++ (TT.STRING :: TT.STRING :: (be32 kvs.length ++ (encKVs kvs ++ more)))
+      = (pre ++ (TT.STRING :: TT.STRING :: be32 kvs.length)) ++ encKVs kvs ++ more := by
+    simp [List.append_assoc]
+  have hl : (pre ++ (TT.STRING :: TT.STRING :: be32 kvs.length)).length = pre.length + 6 := by simp
+  have h := readKVs_enc kvs (pre ++ (TT.STRING :: TT.STRING :: be32 kvs.length)) more [] hk.2
+  rw [hl] at h
+  rw [e2, h, Out.bind_ok]
+  simp [SMap.ofList, encMapSS_length]
+  omega
+
+theorem caseSkip_enc {α : Type} (p : α) (pre more v : Bytes) (t : UInt8) (off : Nat)
+    (hoff : off = pre.length) (hv : refLen 64 t v = some v.length) :
+    caseSkip p (pre ++ v ++ more) off t = .ok ⟨p, off + v.length, none⟩ := by
+  simp only [caseSkip, Out.bind_eq, Out.pure_eq]
+  rw [List.append_assoc, sliceFrom_app pre _ _ hoff, Out.bind_ok,
+    skipBin_complete64 _ t _ (refLen_append hv more)]
+
+/-! ## the generated loop on a printed field list -/
+
+theorem encFields_cons (f : Fld) (fs : List Fld) : encFields (f :: fs) = f.enc ++ encFields fs := by
+  simp [encFields]
+
+theorem genLoop_fields {α F : Type} (body : α → Bytes → Nat → Nat → UInt8 → TOut (RR α))
+    (apply : α → F → α) (toFld : F → Fld) (Valid : F → Prop)
+    (hbody : ∀ (p : α) (f : F) (pre more : Bytes), Valid f →
+      body p (pre ++ (toFld f).val ++ more) pre.length (toFld f).id (toFld f).t
+        = .ok ⟨apply p f, pre.length + (toFld f).val.length, none⟩)
+    (hhdr : ∀ f, Valid f → (toFld f).id < 65536 ∧ (toFld f).t ≠ 0) :
+    ∀ (fs : List F) (pre rest : Bytes) (p : α) (fuel : Nat), (∀ f ∈ fs, Valid f) → fs.length < fuel →
+      genLoop body (pre ++ encFields (fs.map toFld) ++ 0 :: rest) fuel p pre.length
+        = .ok ⟨fs.foldl apply p, pre.length + (encFields (fs.map toFld)).length + 1, none⟩
+  | [], pre, rest, p, fuel, _, hfuel => by
+    obtain ⟨k, rfl⟩ : ∃ k, fuel = k + 1 := ⟨fuel - 1, by simp at hfuel; omega⟩
+    simp only [List.map_nil, encFields, List.flatMap_nil, List.append_nil, genLoop, Out.bind_eq, Out.pure_eq]
+    rw [sliceFrom_app pre _ _ rfl, Out.bind_ok, readFieldBegin_stop]
+    simp
+  | f :: fs, pre, rest, p, fuel, hval, hfuel => by
+    obtain ⟨k, rfl⟩ : ∃ k, fuel = k + 1 := ⟨fuel - 1, by simp at hfuel; omega⟩
+    have hf := hval f List.mem_cons_self
+    obtain ⟨hid, ht⟩ := hhdr f hf
+    have ih := genLoop_fields body apply toFld Valid hbody hhdr fs (pre ++ (toFld f).enc) rest (apply p f) k
+      (fun x hx => hval x (List.mem_cons_of_mem _ hx)) (by simp at hfuel; omega)
+    simp only [List.map_cons, encFields_cons, genLoop, Out.bind_eq, Out.pure_eq]
+    have e1 : pre ++ ((toFld f).enc ++ encFields (fs.map toFld)) ++ 0 :: rest
+        = pre ++ ((toFld f).t :: (be16 (toFld f).id ++ ((toFld f).val ++ (encFields (fs.map toFld) ++ 0 :: rest)))) := by
+      simp [Fld.enc, List.append_assoc]
+    rw [e1, sliceFrom_app pre _ _ rfl, Out.bind_ok, readFieldBegin_enc _ _ _ ht hid]
+    simp only [T_STOP_eq, if_neg ht]
+    have e2 : pre ++ ((toFld f).t :: (be16 (toFld f).id ++ ((toFld f).val ++ (encFields (fs.map toFld) ++ 0 :: rest))))
+        = (pre ++ (toFld f).t :: be16 (toFld f).id) ++ (toFld f).val ++ (encFields (fs.map toFld) ++ 0 :: rest) := by
+      simp [List.append_assoc]
+    have hl : (pre ++ (toFld f).t :: be16 (toFld f).id).length = pre.length + 3 := by simp
+    have hb := hbody p f (pre ++ (toFld f).t :: be16 (toFld f).id) (encFields (fs.map toFld) ++ 0 :: rest) hf
+    rw [hl] at hb
+    rw [e2, hb, Out.bind_ok]
+    simp only []
+    have e3 : (pre ++ (toFld f).t :: be16 (toFld f).id) ++ (toFld f).val ++ (encFields (fs.map toFld) ++ 0 :: rest)
+        = pre ++ (toFld f).enc ++ encFields (fs.map toFld) ++ 0 :: rest := by
+      simp [Fld.enc, List.append_assoc]
+    have hl2 : (pre ++ (toFld f).enc).length = pre.length + 3 + (toFld f).val.length := by
+      simp [Fld.enc]; omega
+    rw [hl2] at ih
+    rw [e3, ih]
+    simp [Fld.enc]
     omega
 
 end Verif
